@@ -187,6 +187,11 @@ def run_case(case, ctx):
                           len(set(tb.tolist())), len(buckets), tb.min()), cfg=cfg)
         return
     b2e = {b: int(tb[idx[0]]) for b, idx in buckets.items()}   # bucket -> index in estimators_
+    ctx.hit("fit.models_keep_their_rows")
+    why = probes.kept_arrays_intact(list(m0.estimators_))
+    if why:
+        ctx.violation(K + "fit/local-model-features-shared", why + " (a local model that keeps its training features "
+                      "is left with rows of another bucket)", cfg=cfg)
     index = probes.row_index(X)
     allcl = sorted(set(y.tolist())) if clf else None
     borrowers = 0
